@@ -19,6 +19,9 @@ package core
 //@ axiom operr_is_neterr: forall e error :: errorsAs(e, "*net.OpError") ==> errorsAs(e, "net.Error")
 //@ axiom as_val_is_neterr: forall e error :: errorsAs(e, "net.Error") ==> errorsAs(errorsAsVal(e, "net.Error"), "net.Error")
 //@ axiom as_val_subchain: forall e error :: errorsAs(e, "net.Error") && !errorsAs(e, "*ResponseStartedError") ==> !errorsAs(errorsAsVal(e, "net.Error"), "*ResponseStartedError")
+// a ResponseStartedError wraps a stream error; the circuit-open sentinel only exists before anything is dialled
+//@ axiom rse_not_circuit: forall e error :: errorsAs(e, "*ResponseStartedError") ==> !errorsIs(e, ErrCircuitOpen)
+//@ axiom asval_is_sub: forall e error, t error :: errorsAs(e, "net.Error") && errorsIs(errorsAsVal(e, "net.Error"), t) ==> errorsIs(e, t)
 //@ axiom no_ptr_errno: forall e error :: !errorsAs(e, "*syscall.Errno")
 //@ spec func connErr(e error) bool = e != nil && !errorsAs(e, "*ResponseStartedError") && (errorsAs(e, "net.Error") || (errorsAs(e, "syscall.Errno") && (errorsAsVal(e, "syscall.Errno") == syscall.ECONNREFUSED || errorsAsVal(e, "syscall.Errno") == syscall.ECONNRESET || errorsAsVal(e, "syscall.Errno") == syscall.ECONNABORTED)) || hasConnText(e))
 //@ spec func circuitOpen(e error) bool = errorsIs(e, ErrCircuitOpen)
@@ -49,15 +52,26 @@ package core
 //@   defines finalErr(res)
 //@   ensures res != nil && fresh(res)
 
+// C01: the body every attempt reads is the body the client sent (content identity of the reader, ghost field
+// "remaining"): it is buffered once and a fresh reader over the same bytes is installed before every attempt.
+//@ ghost field remaining int
+
 //@ func (h *RetryHandler) preserveRequestBody
 //@   property C01 C02
 //@   requires r != nil
-//@   modifies r.Body
+//@   modifies r.Body, ghost remaining
+//@   ensures res1 == nil && old(r.Body) != nil && !isnil(res0) ==> ghost(r.Body).remaining == old(ghost(r.Body).remaining) && bytesContent(res0) == old(ghost(r.Body).remaining)
+//@   ensures res1 == nil && isnil(res0) ==> r.Body == old(r.Body) && ghost(r.Body).remaining == old(ghost(r.Body).remaining)
+//@   ensures res1 == nil && isnil(res0) ==> old(r.Body) == nil || old(r.Body) == http.NoBody
+//@   ensures !isnil(res0) ==> res1 == nil && old(r.Body) != nil
+//@   ensures forall x ref :: !fresh(x) && x != old(r.Body) ==> ghost(x).remaining == old(ghost(x).remaining)
 
 //@ func (h *RetryHandler) resetRequestBodyForRetry
 //@   property C01 C02
 //@   requires r != nil
-//@   modifies r.Body
+//@   modifies r.Body, ghost remaining
+//@   ensures !isnil(bodyBytes) && attemptCount > 0 ==> ghost(r.Body).remaining == bytesContent(bodyBytes)
+//@   ensures isnil(bodyBytes) || attemptCount <= 0 ==> r.Body == old(r.Body) && ghost(r.Body).remaining == old(ghost(r.Body).remaining)
 
 //@ func (h *RetryHandler) executeProxyAttempt
 //@   property C02 C04 C19
@@ -116,6 +130,10 @@ package core
 //@   requires !ghost(w).started
 //@   modifies *
 //@   loop 1 invariant !ghost(w).started
+//@   loop 1 invariant attemptCount == 0 ==> ghost(r.Body).remaining == old(ghost(r.Body).remaining)
+//@   loop 1 invariant !isnil(bodyBytes) ==> bytesContent(bodyBytes) == old(ghost(r.Body).remaining)
+//@   loop 1 invariant isnil(bodyBytes) ==> old(r.Body) == nil || old(r.Body) == http.NoBody
+//@   at call executeProxyAttempt 1 assert !isnil(bodyBytes) || attemptCount == 1 ==> ghost(r.Body).remaining == old(ghost(r.Body).remaining)
 //@   loop 1 invariant 0 <= attemptCount && attemptCount <= maxRetries && maxRetries == len(endpoints)
 //@   loop 1 invariant attempts == old(attempts) + attemptCount
 //@   loop 1 invariant len(availableEndpoints) == len(endpoints) - attemptCount
@@ -182,7 +200,7 @@ package core
 //@   loop 1 invariant forall k string :: has(originalReq.Header, k) == old(has(originalReq.Header, k)) && originalReq.Header[k] == old(originalReq.Header[k])
 //@   loop 1 invariant forall k string :: has(proxyReq.Header, k) ==> !sensHeader(k) && !hopHeader(k) && has(originalReq.Header, k) && proxyReq.Header[k] == originalReq.Header[k]
 //@   loop 1 invariant forall k string :: seen(k) && !sensHeader(k) && !hopHeader(k) ==> has(proxyReq.Header, k) && proxyReq.Header[k] == originalReq.Header[k]
-//@   ensures proxyReq.Header != nil
+//@   ensures proxyReq.Header != nil && (old(proxyReq.Header) != nil ==> proxyReq.Header == old(proxyReq.Header)) && (old(proxyReq.Header) == nil ==> fresh(proxyReq.Header))
 //@   ensures forall k string :: has(proxyReq.Header, k) ==> !sensHeader(k) && !hopHeader(k)
 //@   ensures forall k string :: has(originalReq.Header, k) && !sensHeader(k) && !hopHeader(k) && !ollaHeader(k) ==> has(proxyReq.Header, k) && proxyReq.Header[k] == originalReq.Header[k]
 //@   ensures forall k string :: has(proxyReq.Header, k) && !ollaHeader(k) ==> has(originalReq.Header, k)
@@ -193,3 +211,83 @@ package core
 //@   at call updateForwardedHeaders 1 assert len(proxyReq.Header["Via"]) == 1 && (joinOf(originalReq.Header["Via"], ", ") != "" ==> hasPrefix(proxyReq.Header["Via"][0], concat(joinOf(originalReq.Header["Via"], ", "), ", ")))
 //@   ensures joinOf(originalReq.Header["X-Forwarded-For"], ", ") != "" ==> len(proxyReq.Header["X-Forwarded-For"]) == 1 && hasPrefix(proxyReq.Header["X-Forwarded-For"][0], joinOf(originalReq.Header["X-Forwarded-For"], ", "))
 //@   replay core_copyheaders : len(originalReq.Header["Via"]) ; len(originalReq.Header["X-Forwarded-For"])
+
+// ---- the response writer and the upstream transport as seen by the engines (trusted std-lib contracts)
+//@ ghost field status int
+//@ ghost field hdr http.Header
+//@ ghost var rtCount int
+//@ ghost var lastUpstreamReq *http.Request
+//@ ghost var recSuccess int
+//@ ghost var recFailure int
+
+//@ extern (net/http.ResponseWriter).Header()
+//@   ensures res == ghost(self).hdr && res != nil
+
+//@ extern (net/http.ResponseWriter).WriteHeader(statusCode)
+//@   modifies ghost(self).started, ghost(self).status
+//@   ensures ghost(self).started && (!old(ghost(self).started) ==> ghost(self).status == statusCode) && (old(ghost(self).started) ==> ghost(self).status == old(ghost(self).status))
+
+//@ extern (net/http.ResponseWriter).Write(b)
+//@   modifies ghost(self).started, ghost(self).status
+//@   ensures ghost(self).started && (!old(ghost(self).started) ==> ghost(self).status == 200) && (old(ghost(self).started) ==> ghost(self).status == old(ghost(self).status))
+
+//@ extern net/http.Error(w, error, code)
+//@   modifies ghost(w).started, ghost(w).status, ghost(w).hdr[all]
+//@   ensures ghost(w).started && (!old(ghost(w).started) ==> ghost(w).status == code) && (old(ghost(w).started) ==> ghost(w).status == old(ghost(w).status))
+
+// the transport never touches the client's response writer
+//@ extern (*net/http.Transport).RoundTrip(req)
+//@   records rtCount = old(rtCount) + 1
+//@   records lastUpstreamReq = req
+//@   ensures (res1 == nil) == (res0 != nil)
+//@   ensures res0 != nil ==> fresh(res0) && res0.Body != nil && res0.Header != nil
+//@   ensures !errorsAs(res1, "*ResponseStartedError") && !errorsIs(res1, ErrCircuitOpen)
+
+//@ func (s *ProxyStats) RecordSuccess
+//@   property C19
+//@   modifies s.SuccessfulRequests, s.TotalLatency, s.MinLatency, s.MaxLatency
+//@   loop 1 invariant s.SuccessfulRequests == old(s.SuccessfulRequests) + 1
+//@   loop 2 invariant s.SuccessfulRequests == old(s.SuccessfulRequests) + 1
+//@   ensures s.SuccessfulRequests == old(s.SuccessfulRequests) + 1
+
+//@ func (s *ProxyStats) RecordFailure
+//@   property C19
+//@   modifies s.FailedRequests
+//@   ensures s.FailedRequests == old(s.FailedRequests) + 1
+
+//@ extern (*github.com/thushan/olla/pkg/eventbus.EventBus).PublishAsync(event)
+//@ extern (*github.com/thushan/olla/pkg/eventbus.EventBus).Publish(event)
+
+
+//@ func (b *BaseProxyComponents) RecordSuccess
+//@   property C19
+//@   requires b != nil
+//@   modifies b.Stats, ProxyStats.SuccessfulRequests, ProxyStats.TotalLatency, ProxyStats.MinLatency, ProxyStats.MaxLatency
+//@   records recSuccess = old(recSuccess) + 1
+
+//@ func (b *BaseProxyComponents) RecordFailure
+//@   property C19
+//@   requires b != nil
+//@   modifies b.Stats, ProxyStats.FailedRequests
+//@   records recFailure = old(recFailure) + 1
+
+//@ func (b *BaseProxyComponents) PublishEvent
+//@   property C19
+//@   ensures true
+
+//@ ghost field reqURL string
+
+// C09: the routing-decision headers, whenever present, are exactly the stored decision
+//@ func SetResponseHeaders
+//@   property C02 C09
+//@   requires ghost(w).hdr != nil
+//@   modifies ghost(w).hdr[all]
+//@   ensures stats != nil && stats.RoutingDecision != nil ==> len(ghost(w).hdr["X-Olla-Routing-Strategy"]) == 1 && ghost(w).hdr["X-Olla-Routing-Strategy"][0] == stats.RoutingDecision.Strategy && len(ghost(w).hdr["X-Olla-Routing-Decision"]) == 1 && ghost(w).hdr["X-Olla-Routing-Decision"][0] == stats.RoutingDecision.Action
+//@   ensures stats != nil && stats.RoutingDecision != nil && stats.RoutingDecision.Reason != "" ==> len(ghost(w).hdr["X-Olla-Routing-Reason"]) == 1 && ghost(w).hdr["X-Olla-Routing-Reason"][0] == stats.RoutingDecision.Reason
+
+//@ func ExtractProviderMetrics
+//@   trusted not yet under contract (metrics extraction belongs to C20): assumed to write only stats.ProviderMetrics
+//@   modifies ports.RequestStats.ProviderMetrics
+
+//@ func AppendProviderMetricsToLog
+//@   trusted logging helper
